@@ -68,7 +68,13 @@ Definition step6 (e : bool) (c : cfg6) (s : st) (x : ev6) : st :=
             end in
   emit (q_line s1) s1.
 
-Definition start6 (e : bool) (c : cfg6) : st := let s := boot e (c6 c) (init (c6 c)) in emit (q_line s) s.
+(* supla_esp_gpio_init skips the relays owned by a motion-sensor input (first input naming the relay) *)
+Fixpoint owner (l : list input) (g : Z) : option input :=
+  match l with [] => None | i :: t => if i_relay i =? g then Some i else owner t g end.
+Definition restorable (c : cfg6) (ar : Z * relay) : bool :=
+  match owner (c6_inputs c) (r_gpio (snd ar)) with Some i => negb (i_type i =? IN_MOTION) | None => true end.
+Definition start6 (e : bool) (c : cfg6) : st :=
+  let s := boot_l e (c6 c) (filter (restorable c) (enum 0 (c_relays (c6 c)))) (init (c6 c)) in emit (q_line s) s.
 Definition run6 (e : bool) (c : cfg6) (evs : list ev6) : list out := rev (outs (fold_left (step6 e c) evs (start6 e c))).
 
 (* ---------- wire interface ---------- *)
